@@ -68,7 +68,7 @@ class UpdaterModel:
         self.dispatch = None
         for b in cands:
             # private traits with one implementation are looked through; the segment write itself stays an opaque call
-            eng = common.mk_engine(fb, unique_impls=True, no_inline=lambda x: is_shm_write(x.path))
+            eng = common.mk_engine(fb, unique_impls=True, havoc_loops=True, no_inline=lambda x: is_shm_write(x.path))
             paths = [p for p in eng.run(b) if p.kind != 'unreachable']
             if any(any(ef['kind'] == 'call' and is_shm_write(ef['callee']) for ef in p.effects) for p in paths):
                 self.dispatch = b
@@ -423,9 +423,11 @@ class UpdaterModel:
                             if nm == x[1] and 1 <= k <= self.dispatch.argc:
                                 upd_ty = self.dispatch.tystr(self.dispatch.locals[k]['ty']).lstrip('&').replace('mut ', '').strip().split('<')[0]
         ctor = None
-        for b in fb.bodies(common.DAEMON):
-            if b.defkind != 'Closure' and upd_ty and b.tystr(b.locals[0]['ty']).split('<')[0] == upd_ty and b.path != self.dispatch.path:
-                ctor = b
+        ctors = [b for b in fb.bodies(common.DAEMON)
+                 if b.defkind != 'Closure' and upd_ty and b.tystr(b.locals[0]['ty']).split('<')[0] == upd_ty and b.path != self.dispatch.path]
+        # several constructors (`new` delegating to a generic `with_tracker`): the outermost one, which fixes every part
+        outer = [b for b in ctors if not any(o is not b and common.reaches_call(fb, o, lambda n, p_=b.path: n == p_) for o in ctors)]
+        ctor = (outer or ctors or [None])[-1]
         if ctor is None:
             return None, None, None
         chk.saw(ctor)
